@@ -27,6 +27,16 @@ pub fn pipeline(ctext: &str, ftext: Option<&str>, loc: &str, k: f32, area: f32, 
             Ok(c) => c,
             Err(_) => return "components_rejected",
         };
+        stage.set("metadata_accessors");
+        {
+            use cteepbd::types::MetaVec;
+            for m in &c.meta {
+                let _ = c.get_meta_f32(&m.key);
+                let _ = c.get_meta_rennren(&m.key);
+                let _ = c.has_meta_value(&m.key, "x");
+                let _ = m.value.parse::<cteepbd::types::RenNrenCo2>();
+            }
+        }
         stage.set("normalize_again");
         let _ = c.clone().normalize();
         stage.set("display_components");
@@ -114,7 +124,21 @@ fn gen_texts(r: &mut Rng, corpus: &Corpus) -> (String, Option<String>, &'static 
     (ctext, ftext, kind)
 }
 
+/// the (ren, nren, co2) triple parser on its own (metadata values and option values go through it)
+fn triple_case(r: &mut Rng, t: &mut Tally) {
+    let txt = corrupt::triple_soup(r);
+    t.evaluations += 1;
+    match catch_unwind(AssertUnwindSafe(|| txt.parse::<cteepbd::types::RenNrenCo2>().is_ok())) {
+        Ok(ok) => t.count(if ok { "triple_parser.accepted" } else { "triple_parser.rejected" }),
+        Err(e) => t.violation("C16.library_panics.parse_rennrenco2", format!("RenNrenCo2::from_str panicked on {:?}: {}", txt, safe::panic_msg(&e)), || json!({"kind": "triple", "text": txt})),
+    }
+}
+
 fn in_process_case(r: &mut Rng, corpus: &Corpus, t: &mut Tally) {
+    if r.chance(1, 20) {
+        triple_case(r, t);
+        return;
+    }
     let (ctext, ftext, kind) = gen_texts(r, corpus);
     // hostile numeric options in one third of the cases, so that most inputs also reach the balance
     let k = if r.chance(1, 3) { *r.pick(&HOSTILE_K) } else { *r.pick(&[0.0f32, 1.0, 0.5]) };
@@ -207,10 +231,12 @@ fn gen_argv(r: &mut Rng, has_f: bool) -> Vec<String> {
     for (opt, name) in [("--json", "o.json"), ("--xml", "o.xml"), ("--txt", "o.txt"), ("--oc", "oc.csv"), ("--of", "of.csv")] {
         if r.chance(1, 4) {
             a.push(s(opt));
-            a.push(match r.below(8) {
+            a.push(match r.below(9) {
                 0 => s("{D}/no_such_dir/out"),
                 1 => s("{D}"),
                 2 => s("/proc/version"),
+                // opens, but every write fails (ENOSPC): the write-error path
+                3 => s("/dev/full"),
                 _ => format!("{{D}}/{name}"),
             });
         }
@@ -251,6 +277,8 @@ fn classify(res: &cli::RunResult) -> ProcOutcome {
         o.bad = Some(("C16.undocumented_exit_code".into(), format!("cteepbd ended with exit code {code}: {}", res.stderr.lines().next().unwrap_or(""))));
     } else if code == 1 && !(res.stderr.contains("USAGE") || res.stderr.contains("error:")) {
         o.bad = Some(("C16.exit_1_not_from_option_parser".into(), format!("exit code 1 without the option parser's message: {}", res.stderr.lines().next().unwrap_or(""))));
+    } else if code == 0 && res.stderr.lines().any(|l| l.starts_with("ERROR")) {
+        o.bad = Some(("C16.error_reported_but_exit_code_0".into(), format!("an error is reported on stderr but the program ends with exit code 0: {}", res.stderr.lines().find(|l| l.starts_with("ERROR")).unwrap_or(""))));
     } else if code != 0 && res.stderr.trim().is_empty() {
         o.bad = Some(("C16.error_not_reported_on_stderr".into(), format!("exit code {code} with empty stderr")));
     }
@@ -384,7 +412,12 @@ pub fn run(ctx: &Ctx) -> Report {
 
 pub fn replay(ctx: &Ctx, _monitor: &str, w: &Value) -> Option<Report> {
     let mut t = Tally::default();
-    if w["kind"] == "in_process" {
+    if w["kind"] == "triple" {
+        let txt = w["text"].as_str()?.to_string();
+        if let Err(e) = catch_unwind(AssertUnwindSafe(|| txt.parse::<cteepbd::types::RenNrenCo2>().is_ok())) {
+            t.violation("C16.library_panics.parse_rennrenco2", format!("RenNrenCo2::from_str panicked on {:?}: {}", txt, safe::panic_msg(&e)), || w.clone());
+        }
+    } else if w["kind"] == "in_process" {
         let ctext = w["components_text"].as_str()?.to_string();
         let ftext = w["factors_text"].as_str().map(|s| s.to_string());
         let pf = |s: &str| -> f32 { s.parse().unwrap_or(f32::NAN) };
